@@ -647,6 +647,7 @@ type shellCase struct {
 	Pred   string   `json:"pred"`   // ExprTree.tla's prediction: ok | differs | error
 	WS     []int    `json:"ws"`     // whitespace variants to try
 	Ignore []string `json:"ignore"` // known failure keys to step over (so that they do not mask other checks)
+	Expect *Node    `json:"expect"` // binding self-test only: the tree the text must parse back to (instead of t)
 }
 
 func runShell(data json.RawMessage) vh.Verdict {
@@ -664,6 +665,15 @@ func runShell(data json.RawMessage) vh.Verdict {
 		ignore[k] = true
 	}
 	o := roundTrip(e)
+	if c.Expect != nil && o.class == "ok" {
+		want, err := build(c.Expect, false)
+		if err != nil {
+			return vh.Fail("harness-build", "cannot build: %v", err)
+		}
+		if canon(normExpr(o.back)) != canon(normExpr(want)) {
+			return vh.Verdict{OK: false, Key: "selftest-expectation", Msg: fmt.Sprintf("parsed %s, case expects %s", canon(normExpr(o.back)), canon(normExpr(want)))}
+		}
+	}
 	obs := map[string]interface{}{"outcome": o.class, "text": o.text}
 	if c.Pred != "" {
 		if c.Pred == o.class {
